@@ -250,20 +250,20 @@ Variable X A : Type.
 Variable raw : X -> str.
 Variable mkseg : X -> option sref -> result A.
 Variable nm : A -> str.
-Variable admit : str * sref * structure -> list str -> str -> result unit.
+Variable admission : str * sref * structure -> list str -> str -> result unit.
 Variable root : sref.
 
 Notation gstate := (gstate A).
 Notation cur_group := (@cur_group A).
-Notation add_child := (add_child A nm admit).
-Notation open_group := (open_group t A nm admit).
-Notation open_groups := (open_groups t A nm admit).
-Notation reopen_group := (reopen_group t A nm admit).
-Notation place := (place X A mkseg nm admit).
-Notation after_found := (after_found t X A raw mkseg nm admit root).
-Notation attempts := (attempts t X A raw mkseg nm admit root).
-Notation step := (step t X A raw mkseg nm admit root).
-Notation run := (run t X A raw mkseg nm admit root).
+Notation add_child := (add_child A nm admission).
+Notation open_group := (open_group t A nm admission).
+Notation open_groups := (open_groups t A nm admission).
+Notation reopen_group := (reopen_group t A nm admission).
+Notation place := (place X A mkseg nm admission).
+Notation after_found := (after_found t X A raw mkseg nm admission root).
+Notation attempts := (attempts t X A raw mkseg nm admission root).
+Notation step := (step t X A raw mkseg nm admission root).
+Notation run := (run t X A raw mkseg nm admission root).
 
 Definition st_spine (s : gstate) : Prop := spine A (g_path s) (g_forest s).
 Definition st_closed (s : gstate) : Prop := closed A (g_path s) (g_forest s).
@@ -395,7 +395,7 @@ Qed.
 (* the forest returned by the search: no empty group, and its flattening is the list of the
    parsed segments, one per input item, in input order *)
 Theorem find_groups_order xs f :
-  find_groups t X A raw mkseg nm admit root xs = Ok f ->
+  find_groups t X A raw mkseg nm admission root xs = Ok f ->
   Forall (ne_tree A) f /\
   Forall2 (fun x a => exists sr, mkseg x sr = Ok a) xs (gflatten f).
 Proof.
